@@ -189,6 +189,25 @@ class HRecList:
     return HRecList(self.cls, self.fields, dict(self.reps), self.length)
 
 
+class HPointMap:
+  """collections.defaultdict(list) keyed by points (pairs of ints), values lists of ints - as a mutable ghost relation:
+  `term` names the current relation pm_has(term, px, py, index) (an append creates a new term related to the old one)."""
+
+  def __init__(self, term):
+    self.term = term
+
+  def clone(self):
+    return HPointMap(self.term)
+
+
+class PMEntry:
+  """m[(px, py)] of an HPointMap: remembers map and key so that `.append(i)` updates the relation."""
+  __slots__ = ("ptr", "key")
+
+  def __init__(self, ptr, key):
+    self.ptr, self.key = ptr, key
+
+
 class ElemRef:
   """Reference to element `idx` of the HRecList at `ptr` (a protobuf sub-message inside a repeated field)."""
   __slots__ = ("ptr", "idx")
